@@ -4,6 +4,9 @@
    (op, nbcell, notebook, structure, cellchange; Doc.doc and Doc's change application, which is
    C04's subject: this reference says WHICH document receives WHICH change in WHICH order).
 
+   The reference is TOTAL: it says what every notification does, also one that refers to something
+   that is not open (nothing, except that the server reports an error; see `spec_step`).
+
    Differences from the code that the well-formedness predicate makes invisible (the cases where
    LSP leaves the order open, DESIGN section 6 row 25):
    * a notebook change applies the structure (splice, didOpen, didClose) FIRST, then cell data to
@@ -30,6 +33,8 @@ Definition o_with_doc t f := mkObs f (o_nb t) (o_cell t) (o_folder t) (o_errs t)
 Definition o_with_nb t f := mkObs (o_doc t) f (o_cell t) (o_folder t) (o_errs t).
 Definition o_with_cell t f := mkObs (o_doc t) (o_nb t) f (o_folder t) (o_errs t).
 Definition o_with_folder t f := mkObs (o_doc t) (o_nb t) (o_cell t) f (o_errs t).
+(* a notification that cannot be applied is reported to the server's error hook *)
+Definition report t := mkObs (o_doc t) (o_nb t) (o_cell t) (o_folder t) (o_errs t + 1).
 
 (* the last name given to a folder uri in a list *)
 Fixpoint alast (u : N) (l : list (N * N)) : option N :=
@@ -56,18 +61,25 @@ Definition spec_nb_of_cell (t : obs) (c : N) : option notebook :=
 
 (* ---- the reference fold ---- *)
 
-(* a text document is opened, on its own (owner None) or as a cell of a notebook *)
+(* a text document is opened, as a cell of a notebook (owner Some n) or on its own (owner None).
+   The item replaces whatever was open under that uri (LSP forbids a second didOpen without a
+   didClose; the last one counts).  Opening a uri on its own says nothing about notebooks: a uri
+   that is a cell of a notebook (which still lists it) stays one. *)
 Definition open_item (cf : encoding * sync_kind) (owner : option N) (t : obs)
            (it : N * N * Z * list N) : obs :=
   let '(u, lang, v, text) := it in
-  o_with_cell (o_with_doc t (upd (o_doc t) u (Some (open_doc (fst cf) (snd cf) text v, lang))))
-              (upd (o_cell t) u owner).
+  let t1 := o_with_doc t (upd (o_doc t) u (Some (open_doc (fst cf) (snd cf) text v, lang))) in
+  match owner with
+  | Some n => o_with_cell t1 (upd (o_cell t) u (Some n))
+  | None => t1
+  end.
 
 (* a text document or cell is closed: it disappears, with its entry in the cell index *)
 Definition close_doc (t : obs) (u : N) : obs :=
   o_with_cell (o_with_doc t (upd (o_doc t) u None)) (upd (o_cell t) u None).
 
-(* the changes of one textContent entry reach the document it names, in order *)
+(* the changes of one textContent entry reach the document it names, in order; an entry for a
+   document that is not open changes nothing: the document stays absent *)
 Definition text_entry (t : obs) (e : N * Z * list change) : obs :=
   let '(u, v, cs) := e in
   match o_doc t u with
@@ -75,6 +87,23 @@ Definition text_entry (t : obs) (e : N * Z * list change) : obs :=
     o_with_doc t (upd (o_doc t) u (Some (fold_left (fun d c => update_text_document d v c) cs d, l)))
   | None => t
   end.
+
+(* the textContent entries of one notification, in order.  An entry that carries changes for a
+   document that is not open cannot be applied: it is an error, and the notification ends there
+   (what was applied before stays; the flag says that the error is reported).  The property's text
+   decides only that the document stays absent; what happens to the REST of a notification the
+   client should not have sent is left open by LSP, and "handling stops at the first error" is the
+   reading in which notifications are applied strictly in order. *)
+Fixpoint text_entries (t : obs) (es : list (N * Z * list change)) : obs * bool :=
+  match es with
+  | [] => (t, false)
+  | (u, v, cs) :: r =>
+    match o_doc t u, cs with
+    | None, _ :: _ => (t, true)
+    | _, _ => text_entries (text_entry t (u, v, cs)) r
+    end
+  end.
+Definition finish (r : obs * bool) : obs := if snd r then report (fst r) else fst r.
 
 (* cell data replaces kind, metadata and execution summary of the cell with that document *)
 Definition data_all (cells : list nbcell) (d : nbcell) : list nbcell :=
@@ -105,21 +134,24 @@ Definition spec_step (cf : encoding * sync_kind) (t : obs) (o : op) : obs :=
   | DidChange u v cs =>
     match o_doc t u with
     | Some (d, l) => o_with_doc t (upd (o_doc t) u (Some (did_change d (v, cs), l)))
-    | None => t
+    | None =>
+      (* not open (closed, or never opened): the document stays absent and is served from disk;
+         changes that cannot be applied are reported *)
+      match cs with [] => t | _ :: _ => report t end
     end
-  | DidClose u => close_doc t u
+  | DidClose u => close_doc t u                       (* of a uri that is not open: nothing *)
   | NbOpen n nb items =>
     fold_left (open_item cf (Some n)) items (o_with_nb t (upd (o_nb t) n (Some nb)))
   | NbChange n v meta cc =>
     match o_nb t n with
-    | None => t
+    | None => report t                                 (* not open: nothing changes; reported *)
     | Some nb =>
       let meta' := match meta with Some m => Some m | None => n_meta nb end in
       match cc with
       | None => o_with_nb t (upd (o_nb t) n (Some (mkNb v meta' (n_type nb) (n_cells nb))))
       | Some cc =>
         let t1 := o_with_nb t (upd (o_nb t) n (Some (mkNb v meta' (n_type nb) (new_cells (n_cells nb) cc)))) in
-        fold_left text_entry (cc_text cc) (after_structure cf n t1 cc)
+        finish (text_entries (after_structure cf n t1 cc) (cc_text cc))
       end
     end
   | NbClose n cs => fold_left close_doc cs (o_with_nb t (upd (o_nb t) n None))
@@ -146,35 +178,39 @@ Fixpoint nodupb (l : list N) : bool :=
 
 Definition cell_docs (cells : list nbcell) : list N := map c_doc cells.
 
-(* one notification is well formed in the state it arrives in *)
+(* one notification is well formed in the state it arrives in.  Excluded are only
+   - a notebook that lists the same cell document twice (LSP identifies a cell by its document uri;
+     "the cell with document d" is then not defined), and
+   - the two cases in which the outcome depends on an order LSP leaves open (DESIGN section 6 row 25).
+   Notifications that refer to documents / notebooks that are not open are NOT excluded. *)
 Definition wf_op (cf : encoding * sync_kind) (t : obs) (o : op) : bool :=
   match o with
-  | DidOpen (u, _, _, _) => negb (is_some (o_doc t u))         (* not opened twice *)
-  | DidChange u _ _ => is_some (o_doc t u)                     (* changes refer to an open document *)
-  | DidClose _ => true
   | NbOpen _ nb _ => nodupb (cell_docs (n_cells nb))           (* a notebook's cells are distinct documents *)
-  | NbChange n _ _ cc =>
-    match o_nb t n with
-    | None => false                                            (* changes refer to an open notebook *)
-    | Some nb =>
-      match cc with
-      | None => true
-      | Some cc =>
-        (match cc_structure cc with
-         | None => true
-         | Some st =>
-           (* the cells spliced in are distinct documents, none of them a cell that stays *)
-           nodupb (cell_docs (splice (n_cells nb) (st_start st) (st_delete st) (st_cells st)))
-           (* cell data does not refer to a cell added by the same notification *)
-           && forallb (fun d => negb (memb (c_doc d) (cell_docs (st_cells st)))) (cc_data cc)
-         end)
-        (* text changes refer to documents that are open once the structure has been applied *)
-        && forallb (fun e => is_some (o_doc (after_structure cf n t cc) (fst (fst e)))) (cc_text cc)
-      end
+  | NbChange n _ _ (Some cc) =>
+    match o_nb t n, cc_structure cc with
+    | Some nb, Some st =>
+      (* the cells after the splice are distinct documents *)
+      nodupb (cell_docs (splice (n_cells nb) (st_start st) (st_delete st) (st_cells st)))
+      (* cell data does not refer to a cell added by the same notification *)
+      && forallb (fun d => negb (memb (c_doc d) (cell_docs (st_cells st)))) (cc_data cc)
+    | _, _ => true
     end
-  | NbClose _ _ => true
   | Folders added removed =>
     forallb (fun f => negb (memb (fst f) removed)) added        (* added and removed are disjoint *)
+  | _ => true
+  end.
+
+(* every change refers to something that is open (then no notification is answered with an error) *)
+Definition targets_open (cf : encoding * sync_kind) (t : obs) (o : op) : bool :=
+  match o with
+  | DidChange u _ _ => is_some (o_doc t u)
+  | NbChange n _ _ cc =>
+    is_some (o_nb t n) &&
+    match cc with
+    | None => true
+    | Some cc => forallb (fun e => is_some (o_doc (after_structure cf n t cc) (fst (fst e)))) (cc_text cc)
+    end
+  | _ => true
   end.
 
 Fixpoint wf_hist (cf : encoding * sync_kind) (t : obs) (h : list op) : bool :=
